@@ -311,10 +311,10 @@ Step(S, e) ==
     [] e.e = "SyncEnd" ->
         LET S1 == [S EXCEPT !.wait = IF @ # <<>> THEN Front(@) ELSE @, !.sync = IF @ # <<>> THEN Front(@) ELSE @,
                             !.ovf = (e.v = VX(80000)),
-                            !.aband = IF e.v = VX(80000) THEN @ \cup {t \in Reach(S, e.a) \cap Tasks(S) : ~FutDone(S, t)} ELSE @] IN
+                            !.aband = IF IsEscape(e.v) THEN @ \cup {t \in Reach(S, e.a) \cap Tasks(S) : ~FutDone(S, t)} ELSE @] IN
         [S |-> S1,
          bad |-> IfBad(e.v # VX(80000) => e.b = e.t, "C08.active") \cup        \* (after the runaway-recursion reset nothing is active)
-                 IfBad(e.v # VX(80000) => (FutDone(S, e.a) /\ S.fut[e.a].v = e.v /\ (IsX(e.v) => S.fut[e.a].u = e.u)), "C01.sync") \cup
+                 IfBad(~IsEscape(e.v) => (FutDone(S, e.a) /\ S.fut[e.a].v = e.v /\ (IsX(e.v) => S.fut[e.a].u = e.u)), "C01.sync") \cup
                  CtxRunClauses(S1, e.t)]
 
     [] e.e = "CallEnd" ->
@@ -323,15 +323,15 @@ Step(S, e) ==
             reached == Reach(S, root)
             rootDone == FutDone(S, root)
             S1 == [S EXCEPT !.wait = IF @ # <<>> THEN Front(@) ELSE @,
-                            !.aband = IF e.v = VX(80000) THEN @ \cup {t \in Tasks(S) : ~FutDone(S, t)} ELSE @]
+                            !.aband = IF IsEscape(e.v) THEN @ \cup {t \in Tasks(S) : ~FutDone(S, t)} ELSE @]
         IN [S |-> S1,
             bad |-> IfBad(e.a = 0, "C08.active") \cup
                     IfBad(e.k = 0, "C08.clean") \cup
                     IfBad(\A i \in 1..Len(e.xs) : e.xs[i] = 0, "C07.restore") \cup
-                    IfBad(e.v # VX(80000) => (rootDone /\ S.fut[root].v = e.v), "C01.conv") \cup
-                    IfBad(rootDone /\ IsX(e.v) => S.fut[root].u = e.u, "C02.prop") \cup
+                    IfBad(~IsEscape(e.v) => (rootDone /\ S.fut[root].v = e.v), "C01.conv") \cup
+                    IfBad((rootDone /\ IsX(e.v) /\ ~IsEscape(e.v)) => S.fut[root].u = e.u, "C02.prop") \cup
                     (IF S.ref # <<>> THEN IfBad(e.v = S.ref[root], "C01.ret") ELSE {}) \cup
-                    IfBad((NoFaultyCtx(P) /\ ~HasCtxType(P, "nonasync") /\ e.v # VX(80000)) => \A t \in Tasks(S) \ S.aband : S.ts[t].seg > 0 => FutDone(S, t), "C03.term") \cup
+                    IfBad((NoFaultyCtx(P) /\ ~HasCtxType(P, "nonasync") /\ ~IsEscape(e.v)) => \A t \in Tasks(S) \ S.aband : S.ts[t].seg > 0 => FutDone(S, t), "C03.term") \cup
                     IfBad(\A b \in DOMAIN S.bat : S.bat[b].nbefore = S.bat[b].nafter, "C05.events") \cup
                     (IF YieldOnly(P) /\ TreeShaped(P) /\ SingleKind(P) /\ S.ref # <<>> /\ S.ncall = 1 /\ P.kinds[1].flush # "spawn"
                      THEN IfBad(S.nflush = CriticalPath(P, root), "C04.count") ELSE {}) \cup
